@@ -253,11 +253,12 @@ type c11 struct {
 	r              *mon.Result
 	mu             sync.Mutex
 	found          map[string]*c11Found
-	cur            atomic.Value // description of the input being evaluated (for the watchdog)
-	bigAlloc       int32        // budget of mutants whose claimed length makes a decoder allocate >= 16 MB
-	hugeAlloc      int32        // ... 2 GB
-	tracingQuirk   bool         // the REFERENCE codec itself declares len+16 for a request with the tracing flag
-	dsev1Misparsed bool         // see probeDsev1
+	cur            atomic.Value                  // description of the input being evaluated (for the watchdog)
+	bigAlloc       int32                         // budget of mutants whose claimed length makes a decoder allocate >= 16 MB
+	hugeAlloc      int32                         // ... 2 GB
+	tracingQuirk   bool                          // the REFERENCE codec itself declares len+16 for a request with the tracing flag
+	dsev1Misparsed bool                          // see probeDsev1
+	prev           map[primitive.OpCode]*c11Prev // per opcode, the message decoded before the current one (guarded by mu)
 }
 
 // sig maps a finding class to its stable signature: C11/<opcode>/<class> (the versions are listed in the detail).
@@ -329,6 +330,12 @@ func c11Opt(s string) string {
 	return " " + s
 }
 
+type c11Prev struct {
+	in   c11Input
+	ref  c11View
+	body *frame.Body
+}
+
 func (k *c11) flush() {
 	k.mu.Lock()
 	defer k.mu.Unlock()
@@ -351,6 +358,23 @@ func (k *c11) flush() {
 // lead is the end of the leading fields (-1 if unknown).  Returns true if nothing was wrong.
 func (k *c11) checkValid(in c11Input, ref c11View, lead int, mode, mutation string, viaBuffer bool) bool {
 	body, err, pan := c11PartialDecode(in, viaBuffer)
+	// a message decoded earlier is still what it was after this decode (the proxy keeps decoded messages while it reads the
+	// next frame: overrides, retries and the idempotency check look at them later)
+	k.mu.Lock()
+	prev := k.prev[in.Op] // the last message of this kind: a decoder that recycles its buffers recycles them for the same kind
+	delete(k.prev, in.Op)
+	k.mu.Unlock()
+	if prev != nil && pan == "" {
+		if pv, usable := c11ViewOfPartial(prev.body.Message); !usable {
+			k.violate(k.sig(prev.in, "decoded-message-changed-by-a-later-decode"), prev.in, -1, "valid", "", false, "the message decoded before this one is no longer of its type", &prev.ref)
+		} else if d := c11Diff(prev.ref, pv); d != "" {
+			k.violate(k.sig(prev.in, "decoded-message-changed-by-a-later-decode"), prev.in, -1, "valid", "", false, fmt.Sprintf("after the next body had been decoded, field %s of the message decoded before reads %s (it was %s)", d, c11Show(pv, d), c11Show(prev.ref, d)), &prev.ref)
+		} else if _, out, e2, p2 := c11Reencode(prev.in, prev.body); p2 == "" && e2 == nil && !bytes.Equal(out, prev.in.Body) && c11PayloadEntries(prev.in) <= 1 {
+			k.violate(k.sig(prev.in, "decoded-message-changed-by-a-later-decode"), prev.in, -1, "valid", "", false, "after the next body had been decoded, the message decoded before re-encodes differently: "+c11FirstDiff(prev.in.Body, out), &prev.ref)
+		} else {
+			k.r.Obs("earlier_messages_rechecked_after_a_later_decode", 1)
+		}
+	}
 	if pan != "" {
 		k.violate(k.sig(in, "decode-panic/"+c11PanicClass(pan)), in, lead, mode, mutation, false, "partial DecodeBody panicked: "+pan, &ref)
 		return false
@@ -424,6 +448,14 @@ func (k *c11) checkValid(in c11Input, ref c11View, lead int, mode, mutation stri
 				fmt.Sprintf("EncodeFrame wrote a header declaring %d body bytes and then %d body bytes (EncodedLength disagrees with Encode)", declared, len(out)), &ref)
 			return false
 		}
+	}
+	if ok && usable && mode == "valid" && len(in.Body) < 1<<16 {
+		k.mu.Lock()
+		if k.prev == nil {
+			k.prev = map[primitive.OpCode]*c11Prev{}
+		}
+		k.prev[in.Op] = &c11Prev{in: in, ref: ref, body: body}
+		k.mu.Unlock()
 	}
 	return ok
 }
